@@ -312,6 +312,14 @@ func (r *xdsResolver) Close() {
 func (r *xdsResolver) Update(config *xdsresource.XDSConfig) {
 	r.serializer.TrySchedule(func(context.Context) {
 		r.xdsConfig = config
+		// Drop entries that nothing references any more before building the
+		// new config selector. An entry whose reference count reached zero has
+		// already consumed its one-shot unsubscribe function; while the
+		// listener or route resource is in error no further update prunes it.
+		// If such a stale entry were reused for a cluster that reappears, no
+		// subscription would be made for it and its later removal would never
+		// trigger the update that drops it from the service config.
+		r.pruneActiveClustersAndPlugins()
 		cs, err := r.newConfigSelector()
 		if err != nil {
 			r.onResourceError(err)
